@@ -904,7 +904,7 @@ pub fn run_thr(case: &Case, dir: PathBuf) -> Outcome {
             let mut spins = 0u32;
             sched::wait_until("settle_after_background_fault", || {
                 spins += 1;
-                spins > 400 || fjall::verif::is_poisoned(&sh.db)
+                spins > 120 || fjall::verif::is_poisoned(&sh.db)
             });
             sh.stats.lock().unwrap().inc("probe_fault_hit_background_work");
             if !fjall::verif::is_poisoned(&sh.db) {
